@@ -75,6 +75,13 @@ class SymRE(object):
     def __neg__(self):
         return SymRE(-self.t, self.integral)
 
+    def __divmod__(self, o):
+        """divmod(x, 1.0): error free (bit-precise lemma (i) of C14/C17: quotient = floor, remainder = x - floor)."""
+        if not (isinstance(o, (int, float)) and float(o) == 1.0):
+            return NotImplemented
+        fl = z3.ToReal(z3.ToInt(self.t))
+        return SymRE(fl, integral=True), SymRE(self.t - fl)
+
     def _cmp(self, o, op):
         if symx.is_nonfinite(o):
             return symx._cmp_nonfinite(op, True, o)
